@@ -195,6 +195,34 @@ def term(n: ast.AST) -> str:
     return cstr(n)
 
 
+_SAFE_ITER_CALLS = ('zip', 'enumerate', 'range', 'reversed', 'sorted')
+_ITER_CONSUMERS = ('sum', 'min', 'max', 'list', 'set', 'sorted', 'any', 'all', 'tuple', 'frozenset', 'len', 'iter',
+                   'enumerate', 'zip', 'reversed', 'dict.fromkeys')
+
+
+def iter_canon(n: ast.AST) -> ast.AST:
+    """one form for an expression that is only *iterated*:  D.keys() -> D  (iterating a mapping visits its keys);
+    list(Z) / tuple(Z) -> Z for a Z nothing can change while it is consumed (zip/enumerate/range/... or a
+    comprehension);  (x for x in S) -> S"""
+    while True:
+        if isinstance(n, ast.Call) and isinstance(n.func, ast.Attribute) and n.func.attr == 'keys' and not n.args and not n.keywords:
+            n = n.func.value
+            continue
+        if isinstance(n, ast.Call) and isinstance(n.func, ast.Name) and n.func.id in ('list', 'tuple') and len(n.args) == 1 \
+                and not n.keywords:
+            z = n.args[0]
+            if (isinstance(z, ast.Call) and isinstance(z.func, ast.Name) and z.func.id in _SAFE_ITER_CALLS) or \
+                    isinstance(z, (ast.GeneratorExp, ast.ListComp)):
+                n = z
+                continue
+        if isinstance(n, ast.GeneratorExp) and len(n.generators) == 1 and not n.generators[0].ifs \
+                and isinstance(n.elt, ast.Name) and isinstance(n.generators[0].target, ast.Name) \
+                and n.elt.id == n.generators[0].target.id:
+            n = n.generators[0].iter
+            continue
+        return n
+
+
 def cstr(n: ast.AST) -> str:
     if isinstance(n, ast.Call):
         f = cstr(n.func)
@@ -211,12 +239,10 @@ def cstr(n: ast.AST) -> str:
                                      generators=[ast.comprehension(target=ast.Name(id='_fk', ctx=ast.Store()), iter=n.args[0],
                                                                    ifs=[], is_async=0)]))
         cargs = list(n.args)
-        if f in ('sum', 'min', 'max', 'list', 'set', 'sorted', 'any', 'all', 'tuple', 'frozenset', 'len') and cargs:
-            g = cargs[0]
-            if isinstance(g, ast.GeneratorExp) and len(g.generators) == 1 and not g.generators[0].ifs \
-                    and isinstance(g.elt, ast.Name) and isinstance(g.generators[0].target, ast.Name) \
-                    and g.elt.id == g.generators[0].target.id:
-                cargs[0] = g.generators[0].iter          # (x for x in S) consumed as an iterable is S
+        if f in _ITER_CONSUMERS and cargs:
+            cargs[0] = iter_canon(cargs[0])          # consumed as an iterable
+            if f == 'zip':
+                cargs = [iter_canon(a) for a in cargs]
         args = [term(a) for a in cargs]
         if f in COMMUTATIVE_CALLS:
             args = sorted(args)
@@ -265,7 +291,7 @@ def cstr(n: ast.AST) -> str:
         n2._alpha_done = True
         return cstr(n2)
     if isinstance(n, (ast.GeneratorExp, ast.ListComp, ast.SetComp)):
-        gens = ';'.join('%s in %s%s' % (term(g.target), term(g.iter),
+        gens = ';'.join('%s in %s%s' % (term(g.target), term(iter_canon(g.iter)),
                                          ''.join(' if ' + cond_str(c) for c in g.ifs)) for g in n.generators)
         k = {'GeneratorExp': 'gen', 'ListComp': 'list', 'SetComp': 'set'}[type(n).__name__]
         return '%s(%s for %s)' % (k, term(n.elt), gens)
@@ -278,10 +304,11 @@ def cstr(n: ast.AST) -> str:
                     and isinstance(it.key, ast.Name) and isinstance(it.generators[0].target, ast.Name) \
                     and it.key.id == it.generators[0].target.id:
                 inner = it.generators[0].iter
-                if isinstance(inner, ast.Call) and isinstance(inner.func, ast.Attribute) and inner.func.attr == 'keys' and not inner.args:
-                    return inner
+                if (isinstance(inner, ast.Call) and isinstance(inner.func, ast.Attribute) and inner.func.attr == 'keys' and not inner.args) \
+                        or isinstance(inner, (ast.Name, ast.Attribute)):
+                    return iter_canon(inner)
             return it
-        gens = ';'.join('%s in %s' % (term(g.target), term(_src(g.iter))) for g in n.generators)
+        gens = ';'.join('%s in %s' % (term(g.target), term(_src(iter_canon(g.iter)))) for g in n.generators)
         return 'dict(%s:%s for %s)' % (term(n.key), term(n.value), gens)
     if isinstance(n, ast.BinOp):
         return '(%s %s %s)' % (term(n.left), type(n.op).__name__, term(n.right))
